@@ -2944,6 +2944,12 @@ int x509_exts_check(const uint8_t *exts, size_t extslen, int cert_type,
 		}
 	}
 
+	// a CA certificate must assert cA=TRUE, absence of BasicConstraints means end-entity
+	if ((cert_type == X509_cert_ca || cert_type == X509_cert_root_ca) && ca != 1) {
+		error_print();
+		return -1;
+	}
+
 	return 1;
 }
 
